@@ -320,6 +320,13 @@ def lin(node, env):
             return Lin({f'ceil({k}*{sym}/{den.value})': 1})
     if isinstance(node, ast.BinOp) and isinstance(node.op, ast.BitAnd):
         return lin(node.left, env)  # acs & 0x0fff: handled by caller through env
+    if isinstance(node, ast.BinOp) and isinstance(node.op, ast.FloorDiv) and isinstance(node.right, ast.Constant):
+        num = lin(node.left, env)
+        if len(num.d) == 1:
+            (sym, k), = num.d.items()
+            return Lin({f'floor({k}*{sym}/{node.right.value})': 1})  # a floor term never equals a ceil term: compared symbolically
+    if isinstance(node, ast.BinOp) and isinstance(node.op, ast.Sub):
+        return lin(node.left, env) + lin(node.right, env).scale(-1)
     raise AnalysisError(f'size arithmetic: form not handled: {src(node)}')
 
 
@@ -377,6 +384,8 @@ def rule_sizes(ck, repo, R):
                 return C.scale(node.right.value)
             if isinstance(node.left, ast.Call) and src(node.left.func) == 'ceil':
                 return lin(node.left, penv).scale(node.right.value)
+            if isinstance(node.right, ast.Constant) and not isinstance(node.left, ast.Constant):
+                return plin(node.left).scale(node.right.value)
         return lin(node, penv)
     v2 = plin(incs['v == 2'])
     v0 = plin(incs['v == 0'])
